@@ -2,6 +2,7 @@
 mod integer;
 mod rng;
 mod stats;
+mod vamm_unit;
 
 use std::io::Write;
 
@@ -27,6 +28,7 @@ fn main() {
     let mut st = stats::Stats::default();
     match mode.as_str() {
         "integer" => integer::run(seed, count, &mut out, &mut st),
+        "vamm" => vamm_unit::run(seed, count, &mut out, &mut st),
         "replay" => {
             let input = std::fs::read_to_string(arg(&args, "--in").expect("--in FILE")).unwrap();
             for line in input.lines() {
